@@ -13,34 +13,8 @@ theorem done_stays_done (view : α → View α) (steps : Array (Step α)) (src :
 /-- `StopIteration` is only ever produced by the `done` action, which leaves the state as it is -/
 theorem stop_only_from_done (view : α → View α) (steps : Array (Step α)) (src : Src α) (limit : Nat)
     (st st' : St α) (evs : List (Ev α)) (h : next view steps src limit st = (st', evs, .stop)) :
-    st'.act = .done := by
-  induction limit generalizing st evs with
-  | zero => simp [next] at h
-  | succ limit ih =>
-    unfold next at h
-    rcases ha : action view steps src st with ⟨s1, e1, sig⟩
-    rw [ha] at h
-    cases sig with
-    | none =>
-      simp only at h
-      split at h
-      · simp at h
-      · rcases hn : next view steps src limit s1 with ⟨s2, e2, sig2⟩
-        rw [hn] at h
-        simp only [Prod.mk.injEq] at h
-        obtain ⟨h1, _, h3⟩ := h
-        subst h1
-        subst h3
-        exact ih s1 e2 hn
-    | result n => simp only at h; split at h <;> simp at h
-    | raised e => simp at h
-    | bug m => simp at h
-    | stop =>
-      simp only [Prod.mk.injEq] at h
-      obtain ⟨h1, _, _⟩ := h
-      subst h1
-      obtain ⟨hd, hs⟩ := action_stop _ _ _ _ _ _ ha
-      rw [hs]; exact hd
+    st'.act = .done :=
+  next_stop_done view steps src limit st st' evs h
 
 /-- consequently: once `next()` has raised `StopIteration`, every later `next()` raises it
 again, for every path, document and data source -/
